@@ -1,0 +1,53 @@
+//go:build verif
+
+// Contracts for the deductive verifier in /verif (govc). Comments only.
+
+package conntrack
+
+// L13.3: the underlying close runs on every call; the callback runs on the
+// first call only, whatever the number of (sequential) calls.
+//@ func (*closeListener).Close
+//@ property C13
+//@ requires c != nil && c.close != c.onClose
+//@ modifies *, onceDone(c.once), fnCalls
+//@ preserves closeListener.*
+//@ ensures fnCalls(c.close) == old(fnCalls(c.close)) + 1
+//@ ensures old(onceDone(c.once)) ==> fnCalls(c.onClose) == old(fnCalls(c.onClose))
+//@ ensures !old(onceDone(c.once)) ==> fnCalls(c.onClose) == old(fnCalls(c.onClose)) + 1
+//@ ensures onceDone(c.once)
+
+//@ func (*closeConn).Close
+//@ property C13
+//@ requires c != nil && c.l.close != c.l.onClose
+//@ modifies *, onceDone(c.l.once), fnCalls
+//@ preserves closeListener.*
+//@ ensures old(onceDone(c.l.once)) ==> fnCalls(c.l.onClose) == old(fnCalls(c.l.onClose))
+//@ ensures !old(onceDone(c.l.once)) ==> fnCalls(c.l.onClose) == old(fnCalls(c.l.onClose)) + 1
+
+// L13.5: byte counters: exactly n is added to the right counter, the inner
+// result is returned unchanged.
+//@ func (*Observer).addRx
+//@ property C13
+//@ requires o != nil
+//@ modifies o.rx.v
+//@ ensures o.rx.v == (old(o.rx.v) + n) % 18446744073709551616
+
+//@ func (*Observer).addTx
+//@ property C13
+//@ requires o != nil
+//@ modifies o.tx.v
+//@ ensures o.tx.v == (old(o.tx.v) + n) % 18446744073709551616
+
+//@ func (*conn).Read
+//@ property C13
+//@ requires c != nil && c.Conn != nil
+//@ modifies pos(c.Conn), rdFailed(c.Conn), p[*], c.o.rx.v
+//@ ensures 0 <= n && n <= len(p) && pos(c.Conn) == old(pos(c.Conn)) + n
+//@ ensures c.o.rx.v == (old(c.o.rx.v) + n) % 18446744073709551616 && c.o.tx.v == old(c.o.tx.v)
+
+//@ func (*conn).Write
+//@ property C13
+//@ requires c != nil && c.Conn != nil
+//@ modifies wlen(c.Conn), wdata, wrFailed(c.Conn), c.o.tx.v
+//@ ensures 0 <= n && n <= len(p) && wlen(c.Conn) == old(wlen(c.Conn)) + n
+//@ ensures c.o.tx.v == (old(c.o.tx.v) + n) % 18446744073709551616 && c.o.rx.v == old(c.o.rx.v)
